@@ -24,8 +24,9 @@ func init() {
 		for _, f := range []struct {
 			frac   string
 			period int64
-		}{{"0.75", 2}, {"0.25", 1}, {"0", 3}, {"1", 1}} {
-			us = append(us, Search{Sc: Rewards{Fraction: f.frac, Period: f.period}, Depth: depth})
+			dup    bool
+		}{{"0.75", 2, false}, {"0.25", 1, true}, {"0", 3, false}, {"1", 1, false}} {
+			us = append(us, Search{Sc: Rewards{Fraction: f.frac, Period: f.period, Dup: f.dup}, Depth: depth})
 		}
 		return CheckSpec{Level: "model_checking", Rule: searchRule, Assumptions: append([]string{
 			"fees reach the consumer's fee collector through the bank call the ante handler makes; the reward transfer runs through the real ibc-go transfer keeper (escrow, voucher mint) and the provider's transfer middleware; packet relay and channel handshakes through the Net shim",
